@@ -8,8 +8,12 @@
 (* One behaviour = rewrite rules for the two addresses a client may       *)
 (* supply (identity, 1->1, 1->2 over four effective addresses, including  *)
 (* a rewrite target that is also supplied directly and two supplied       *)
-(* addresses rewritten to the same target), a recipient list and the      *)
-(* per-recipient results of the one partial target behind the pipeline.   *)
+(* addresses rewritten to the same target), the scope whose modifiers     *)
+(* hold the rules (global `modify`, the matched source block, or the      *)
+(* matched destination block - AddRcpt runs the three RewriteRcpt stages  *)
+(* in this order and records the reverse mapping after the last one), a   *)
+(* recipient list and the per-recipient results of the one partial target *)
+(* behind the pipeline.  The design is the same for every scope.          *)
 (*                                                                         *)
 (* Deviation "RewriteCollision" (DESIGN section 6 row 9): the reverse map *)
 (* effective -> supplied holds one entry per effective address (last      *)
@@ -19,7 +23,7 @@
 (***************************************************************************)
 EXTENDS PipeStatusObs, TLC, SequencesExt, Json
 
-CONSTANTS MaxList, StSet, Devs, Gen
+CONSTANTS MaxList, StSet, Scopes, Devs, Gen
 
 VARIABLES cfg, pc, lst, st, idx, calls, obs, devs, hist
 
@@ -39,7 +43,8 @@ InitWith(c) ==
   /\ cfg = c /\ pc = "idle" /\ lst = <<>> /\ st = <<>> /\ idx = 0 /\ calls = <<>>
   /\ obs = ObsInit /\ devs = {} /\ hist = <<>>
 
-Init == \E a \in RwChoices("A"), b \in RwChoices("B") : InitWith([rw |-> [A |-> a, B |-> b]])
+Init == \E a \in RwChoices("A"), b \in RwChoices("B"), sc \in Scopes :
+          InitWith([rw |-> [A |-> a, B |-> b], scope |-> sc])
 
 ChooseList(l) ==
   /\ pc = "idle" /\ lst' = l /\ pc' = "plan"
